@@ -45,6 +45,15 @@ def cfOps : Handler := fun st f =>
     let sz : Option Nat := if size == "-1" then none else some size.toNat!
     some (st, if GV.Protocol.reusable stp sz (unhex gv) (unhex pv) then "1" else "0")
   | ["linkstampm", size, gv, pv] => some (st, toHex (GV.Protocol.stampFor (unhex gv) (unhex pv) size.toNat!))
+  -- cachefaultm <fault> <data hex>: the store model: put, one fault, get
+  | ["cachefaultm", fault, dat] =>
+    let s0 : GV.Cache.Store Nat (List UInt8) := (GV.Cache.Store.empty).put 0 (unhex dat)
+    let s1 := if fault == "none" then s0
+      else if fault.startsWith "delete" then s0.fault (.delete 0)
+      else s0.fault (.damage 0)           -- emptied, truncated, overwritten or extended entry files are damaged entries
+    some (st, match s1.get 0 with
+      | some v => "hit " ++ toHex v
+      | none => "miss")
   | _ => none
 
 end GV.Driver
